@@ -24,11 +24,12 @@
 #include <signal.h>
 #include <sys/syscall.h>
 #include <linux/membarrier.h>
+#include <sys/wait.h>
 #include "vrt.h"
 
 enum uv_op { UV_LD, UV_ST, UV_XCHG, UV_CAS, UV_ADDRET, UV_ADD, UV_OR, UV_AND, UV_INC, UV_DEC, UV_MB, UV_RMB, UV_WMB, UV_RELAX,
 	/* runtime-only pseudo ops */
-	UV_LOCK = 32, UV_UNLOCK, UV_FWAIT, UV_FWAKE, UV_POLL, UV_SYSMB, UV_JOIN, UV_CWAIT, UV_YIELD, UV_PLAIN, UV_EXIT };
+	UV_LOCK = 32, UV_UNLOCK, UV_FWAIT, UV_FWAKE, UV_POLL, UV_SYSMB, UV_JOIN, UV_CWAIT, UV_YIELD, UV_PLAIN, UV_EXIT, UV_FORK };
 static const char *opn[] = { "ld", "st", "xchg", "cas", "addret", "add", "or", "and", "inc", "dec", "mb", "rmb", "wmb", "relax" };
 
 #define MAXT 24
@@ -52,6 +53,7 @@ struct mthread {
 	void *keyval[8];
 	char *stk_lo, *stk_hi; int uses_ops;
 	int (*pred)(void *); void *pred_arg;
+	int gone;	/* forked child: this thread of the parent does not exist here */
 };
 static struct mthread T[MAXT];
 static int nthreads;
@@ -63,6 +65,7 @@ static long budget = 20000, trace_cap = 8 << 20;
 static sem_t main_sem;
 static FILE *trace, *schedout;
 static int ending, finished;
+static int is_child; static const char *trace_path; static int create_fail_at = -1, ncreates;
 static void (*sighandler)(void);
 static int sig_budget, sig_nest_max = 1, spur_budget, eintr_budget, futex_enosys, membarrier_ok = 1;
 static int watch_plain;
@@ -228,7 +231,16 @@ static int agent_by_name(const char *s)
 }
 static int is_idle_op(int op) { return op == UV_RELAX || op == UV_POLL; }
 
-static void end_run(void) { finished = 1; sem_post(&main_sem); }
+static void end_run(void)
+{
+	finished = 1;
+	if (is_child) {		/* forked child: there is no main thread to return to */
+		if (trace) { fprintf(trace, "{\"t\":\"main\",\"op\":\"end\",\"decisions\":%ld}\n", decisions); fflush(trace); }
+		if (schedout) fflush(schedout);
+		_exit(0);
+	}
+	sem_post(&main_sem);
+}
 
 static void handoff(int c)
 {
@@ -651,7 +663,12 @@ void vrt_spawn(const char *name, void *(*fn)(void *), void *arg)
 static int nhelpers;
 int vrt_pthread_create(pthread_t *tid, const pthread_attr_t *attr, void *(*fn)(void *), void *arg)
 {
-	(void) attr; char nmb[16]; snprintf(nmb, sizeof nmb, "h%d", ++nhelpers);
+	(void) attr; char nmb[16];
+	if (create_fail_at >= 0 && ncreates++ == create_fail_at) {
+		if (trace) { fprintf(trace, "{\"t\":\"%s\",\"op\":\"fault\",\"var\":\"pthread_create\",\"r\":\"EAGAIN\"}\n", tn(self)); trace_check(); }
+		return EAGAIN;
+	}
+	snprintf(nmb, sizeof nmb, "h%d", ++nhelpers);
 	int id = spawn_common(nmb, fn, arg, 1); *tid = T[id].tid;
 	if (trace) { fprintf(trace, "{\"t\":\"%s\",\"op\":\"spawn\",\"var\":\"%s\"}\n", tn(self), nmb); trace_check(); }
 	return 0;
@@ -661,6 +678,7 @@ int vrt_pthread_join(pthread_t tid, void **ret)
 	int id = -1; for (int i = 0; i < nthreads; i++) if (pthread_equal(T[i].tid, tid)) id = i;
 	if (ret) *ret = id >= 0 ? T[id].ret : NULL;
 	if (id < 0 || self < 0) return 0;
+	if (T[id].gone) vrt_fail("JOIN_GONE pthread_join on thread %s, which does not exist in the forked child", T[id].name);
 	lazy_plain();
 	T[self].join_t = id; T[self].state = ST_BLOCK_JOIN; sched_point(UV_JOIN, 1); T[self].state = ST_RUN;
 	if (ret) *ret = T[id].ret;
@@ -674,6 +692,35 @@ void vrt_wait_until(int (*pred)(void *), void *arg)
 	if (self < 0) { if (!pred(arg)) { fprintf(stderr, "VRT-FAIL main thread would block\n"); _exit(3); } return; }
 	lazy_plain();
 	T[self].pred = pred; T[self].pred_arg = arg; T[self].state = ST_BLOCK_PRED; sched_point(UV_CWAIT, 1); T[self].state = ST_RUN;
+}
+/* fork() from a model thread: the child contains only the calling thread (its scheduler table marks every other thread as gone,
+ * mutexes they own stay owned, their store buffers are lost) and writes its own trace <trace>.child; it _exit(0)s when its run ends. */
+pid_t vrt_fork(void)
+{
+	if (self < 0) return fork();
+	lazy_plain(); sched_point(UV_FORK, 1);
+	if (trace) fflush(trace);
+	if (schedout) fflush(schedout);
+	fflush(stderr);
+	pid_t p = fork();
+	if (p < 0) return p;
+	if (p == 0) {
+		is_child = 1; ending = 0; finished = 0; nrs = -1; solo = -1; solo_at = -1; sig_at = -1;
+		for (int i = 0; i < nthreads; i++) if (i != self) { if (T[i].state != ST_DONE) T[i].gone = 1; T[i].state = ST_DONE; T[i].nsb = 0; }
+		if (trace) { char pth[512]; snprintf(pth, sizeof pth, "%s.child", trace_path ? trace_path : "/dev/null"); trace = fopen(pth, "w"); if (trace) setvbuf(trace, NULL, _IOFBF, 1 << 16); }
+		schedout = NULL;
+		if (trace) { fprintf(trace, "{\"t\":\"%s\",\"op\":\"fork\",\"r\":\"child\"}\n", T[self].name); trace_check(); }
+	} else if (trace) { fprintf(trace, "{\"t\":\"%s\",\"op\":\"fork\",\"r\":\"parent\"}\n", T[self].name); trace_check(); }
+	return p;
+}
+int vrt_is_child(void) { return is_child; }
+/* wait for a forked child (real waitpid: the child is a separate, independently serialised process); returns its exit status or -1 */
+int vrt_wait_child(pid_t pid)
+{
+	int st = 0; pid_t r;
+	do r = waitpid(pid, &st, 0); while (r < 0 && errno == EINTR);
+	if (r < 0) return -1;
+	return WIFEXITED(st) ? WEXITSTATUS(st) : 128 + (WIFSIGNALED(st) ? WTERMSIG(st) : 0);
 }
 void vrt_daemonize(void) { if (self >= 0) T[self].daemon = 1; }
 void vrt_spawn_daemon(const char *name, void *(*fn)(void *), void *arg) { spawn_common(name, fn, arg, 1); }
@@ -720,6 +767,8 @@ void vrt_run(const struct vrt_opts *o)
 			if (nrs < 100000) { line[27] = 0; memcpy(rsched[nrs++], line, 28); } }
 		fclose(f);
 	}
+	create_fail_at = envi("VRT_CREATE_FAIL", -1);
+	trace_path = o->trace;
 	trace = o->trace ? fopen(o->trace, "w") : NULL;
 	if (trace) setvbuf(trace, NULL, _IOFBF, 1 << 16);
 	if (getenv("VRT_SCHEDOUT")) schedout = fopen(getenv("VRT_SCHEDOUT"), "w");
